@@ -882,7 +882,11 @@ def check_mult_inverse(rep, prog, fn):
                 atoms.append(a_)
     others = [a_ for a_ in atoms if a_ != 'is1']
     if 'is1' not in atoms:
-        if others:
+        g_tested = any(cfg.effective_cond(b_) is not None and is_g(cfg.effective_cond(b_)) for b_ in cfg.branch_blocks())
+        if not g_tested and rets and any(cfg.reaches(call, r_) for r_ in rets):
+            probs.append('the gcd returned by ext_gcd is not tested by any branch: a Bezout coefficient is returned as "inverse" whenever 1 < gcd(a, p) '
+                         '(a composite modulus sharing a factor with a) instead of throwing')
+        elif others:
             und.append('the gcd test is outside the idiom table')
         else:
             probs.append('no `throw` guarded by ext_gcd(...) != 1')
@@ -957,10 +961,70 @@ def run_on(rep, prog):
             if name in ('operator+=', 'operator*=', 'operator-='):
                 c17.check_compound(rep, prog, fn, rule='R18c')
     c17.check_copy_ops(rep, prog, 'parmcb::SpVecFP', 'R18c')
+    check_index_assignment(rep, prog)
+    return n
+
+
+def check_index_assignment(rep, prog, cls='parmcb::SpVecFP', rule='R18i'):
+    """assignment from an index makes the vector the unit vector e_index whatever it held before: the entry list is emptied (clear / a
+    fresh list) before the single entry is stored.  `entries.resize(1, x)` is NOT that: resize uses its value argument only for
+    elements it adds, so a non-empty vector keeps its old first entry."""
+    what = 'operator=(index) replaces the previous contents by the single entry (index, 1)'
+    n = 0
+    for fn in prog.fns(cls + '::operator='):
+        if fn.body is None or fn.implicit or len(fn.param_ids) != 1:
+            continue
+        pt = prog.base_type(prog.vars[fn.param_ids[0]]['ty']) or {}
+        if (pt.get('rec') or '').startswith('parmcb::') or 'initializer_list' in (pt.get('canon') or ''):
+            continue
+        if not any(w_ in (pt.get('canon') or pt.get('s') or '') for w_ in ('unsigned long', 'unsigned int', 'unsigned short', 'size_t', 'long', 'int')):
+            continue
+        n += 1
+        cfg = fn.cfg
+        fields = [v_ for v_ in range(len(prog.vars)) if isinstance(prog.vars[v_], dict) and prog.vars[v_].get('kind') == 'field' and prog.vars[v_].get('rec') == cls]
+        ops = [x for x in fn.walk() if x.k == 'CXXMemberCallExpr' and x.callee and x.object_arg() is not None and ex.var_of(x.object_arg()) in fields]
+        asg = [x for x in fn.walk() if x.k == 'CXXOperatorCallExpr' and x.op == '=' and len(x.c) == 3 and ex.var_of(x.c[1]) in fields]
+        clears = [x for x in ops if x.callee['name'] == 'clear']
+        probs, und = [], []
+        stores = 0
+        for x in ops:
+            nm = x.callee['name']
+            if nm in ('push_back', 'emplace_back', 'push_front', 'emplace_front', 'insert', 'emplace'):
+                stores += 1
+                if not any(cfg.dominates(c_, x) for c_ in clears) and not any(cfg.dominates(a_, x) for a_ in asg):
+                    probs.append('`%s` (line %d) appends to whatever the vector held before (no clear() in front of it)' % (x.text(40), x.line))
+            elif nm == 'resize':
+                if not any(cfg.dominates(c_, x) for c_ in clears):
+                    probs.append('`%s` (line %d) keeps the old first entry of a non-empty vector: std::vector::resize(n, v) uses v only for elements it adds' % (x.text(40), x.line))
+                else:
+                    stores += 1
+            elif nm == 'assign':
+                a0 = x.args()[0].strip_all() if x.args() else None
+                if a0 is not None and a0.cv == 1:
+                    stores += 1
+                else:
+                    und.append('`%s`' % x.text(40))
+            elif nm in ('clear', 'size', 'empty', 'begin', 'end', 'reserve', 'shrink_to_fit', 'capacity'):
+                pass
+            else:
+                und.append('`%s`' % x.text(40))
+        for a_ in asg:
+            und.append('`%s`' % a_.text(40))
+        if probs:
+            rep.violation(rule, (ops or [fn.body])[0], fn, what, '; '.join(probs), key='%s|%s|index-assign' % (rule, fn.g))
+        elif und:
+            rep.undecided(rule, fn.body, fn, what, 'entry list modified through %s' % und[0])
+        elif stores == 1:
+            rep.ok(rule, fn.body, fn, what, 'clear(); one entry stored')
+        elif stores == 0 and not ops:
+            rep.undecided(rule, fn.body, fn, what, 'no operation on the entry list found (delegation?)')
+        else:
+            rep.violation(rule, fn.body, fn, what, '%d entries are stored' % stores, key='%s|%s|index-assign-count' % (rule, fn.g))
     return n
 
 
 def run(rep, tier):
+    rep.rule('R18i', 'assignment from an index yields the unit vector whatever the vector held before', floor=1)
     rep.rule('R18a', 'ext_gcd sign selectors are paired with their operand on every path', floor=4)
     rep.rule('R18b', 'every stored F_p value lies in [1, p-1]', floor=7)
     rep.rule('R18c', 'SpVecFP merges, compound operators and copy operations', floor=6)
